@@ -74,6 +74,19 @@ pub enum Step {
         t2: usize,
         b2: Body,
     },
+    /// an in-actor ask joined with a sibling future that panics after a yield (the ask is dropped by the unwinding hook)
+    JoinAskPanic {
+        target: usize,
+        body: Body,
+    },
+    /// like JoinAsk but the second ask has a timeout (it may end by expiry while the first is answered)
+    JoinAskTo {
+        t1: usize,
+        b1: Body,
+        t2: usize,
+        b2: Body,
+        ms: u64,
+    },
     HoldRef(usize),
     DropHeld(usize),
     /// spin for this many wall-clock microseconds (metrics lower bound)
